@@ -104,8 +104,13 @@ def check(c):
             how = 'follows on all normal paths'
             if not ok and f.fq == f'{TP}:TaskPool._set_outputs_itask':
                 # listed exception: delta follows under `not no_op`
+                # (the flag is a local boolean -- `no_op` / `any_set`,
+                # whatever it is called -- and the only condition on the delta)
                 d = [x for x in c.find(f, f'_.delta_task_state({R})')]
-                ok = bool(d) and all(c.holds(x, '!no_op') for x in d) and \
+                ok = bool(d) and all(
+                    len(c.facts(x, expand=False)) == 1 and all(
+                        fa[0] == 'atom' and isinstance(fa[1], ast.Name)
+                        for fa in c.facts(x, expand=False)) for x in d) and \
                     c.cfg(f).path_exists(st, c.idx.stmt_of(d[0]))
                 how = 'exception: delta under `not no_op` (no outputs set ⇒ '\
                       'flags unchanged for waiting tasks only)'
